@@ -4,10 +4,22 @@
    well formed, in particular a member that is not tombstoned is the one linked
    under its key, so a table rebuilt by replaying Set over the stored members
    cannot resurrect a loser (this is the invariant whose violation was defect
-   P12).  PARTIAL: the snapshot codec (to_bytes/from_bytes) and the server
-   rebuild are decided by the differential oracle of the hist engine (snapshot-
-   fed clients and server rebuilds vs a replica that applied every change). *)
-From YV Require Import Crdt.ElemRHT Crdt.RGAList Proofs.ERHTProofs Proofs.RGAProofs.
+   P12).
+   For objects the whole clause is proved on the model of
+   converter.fromJSONObject (decode_step: Set with the member's own position,
+   tombstone restored): whatever order the encoder lists the members in (it
+   ranges over a Go map), the rebuilt table has the same members, tombstones,
+   positions and links and shows the same values; and a replica that loads the
+   snapshot and then applies later Sets shows what the replica that kept its
+   state shows.  The hypotheses (distinct ids; the linked member is the newest
+   of its key; every member's key is linked) are proved for every table built
+   by Sets, and checked on every table the erht engine reaches.
+   PARTIAL: the byte codec itself, arrays with moved elements (finding P13),
+   text, tree and the server rebuild are decided by the differential oracle of
+   the hist engine (snapshot-fed clients and server rebuilds vs a replica that
+   applied every change). *)
+From Coq Require Import List Permutation.
+From YV Require Import Crdt.ElemRHT Crdt.RGAList Proofs.ERHTProofs Proofs.RGAProofs Proofs.ERHTCommute Proofs.ERHTDecode.
 
 Theorem C02_object_members_well_formed : forall h k id val,
   rht_wf h -> nget (nodes h) id = None ->
@@ -29,3 +41,35 @@ Theorem C02_plain_array_determined_by_positions : forall g,
   plain_slots g -> slots g = map (fun p => mkSlot p None (Some p)) (map sl_pos (slots g)).
 Proof. exact plain_slots_determined. Qed.
 Print Assumptions C02_plain_array_determined_by_positions.
+
+(* objects: the snapshot round trip, for every order in which the members are listed *)
+Theorem C02_object_snapshot_roundtrip : forall h l,
+  rht_wf h -> snap_inv h -> Permutation l (nodes h) ->
+  let d := rht_decode l in
+  (forall id, same_node (nget (nodes d) id) (nget (nodes h) id)) /\
+  (forall k w, linked h k = Some w -> exists m, linked d k = Some m /\ neq m w) /\
+  (forall k, view d k = view h k).
+Proof. exact decode_roundtrip. Qed.
+Print Assumptions C02_object_snapshot_roundtrip.
+
+Theorem C02_object_snapshot_order_independent : forall h l1 l2,
+  rht_wf h -> snap_inv h -> Permutation l1 (nodes h) -> Permutation l2 (nodes h) ->
+  (forall id, same_node (nget (nodes (rht_decode l1)) id) (nget (nodes (rht_decode l2)) id)) /\
+  (forall k, view (rht_decode l1) k = view (rht_decode l2) k).
+Proof. exact decode_order_independent. Qed.
+Print Assumptions C02_object_snapshot_order_independent.
+
+(* objects: snapshot, then later changes = every change one by one *)
+Theorem C02_object_snapshot_then_changes : forall h l ops,
+  rht_wf h -> built_inv h -> Permutation l (nodes h) ->
+  all_fresh h ops -> NoDup (map sop_id ops) ->
+  forall k, view (fold_left apply_sop ops (rht_decode l)) k = view (fold_left apply_sop ops h) k.
+Proof. exact snapshot_then_sets. Qed.
+Print Assumptions C02_object_snapshot_then_changes.
+
+(* the hypotheses hold for every table built by Sets *)
+Theorem C02_tables_built_by_sets_qualify : forall ops h,
+  rht_wf h -> built_inv h -> all_fresh h ops -> NoDup (map sop_id ops) ->
+  rht_wf (fold_left apply_sop ops h) /\ built_inv (fold_left apply_sop ops h).
+Proof. exact sets_built. Qed.
+Print Assumptions C02_tables_built_by_sets_qualify.
